@@ -184,6 +184,12 @@ int main()
             auto physics = prob.physics();
             for (double s : steps)
                 os << ' ' << hex(calc_mean_energy_loss(particle, physics, s).value());
+            // the energy loss rate the function used (for the branch classification)
+            {
+                auto gid = physics.value_grid(ValueGridType::energy_loss, physics.eloss_ppid());
+                auto calc = physics.make_calculator<EnergyLossCalculator>(gid);
+                os << " | " << hex(calc(particle.energy()));
+            }
         }
         else if (cmd == "togeo")
         {
